@@ -26,8 +26,15 @@ _RUNNERS: dict = {}
 # --------------------------------------------------------------------------- worker side
 
 
-def _worker_init():
+def _worker_init(silence_stdout: bool = False):
     os.environ.setdefault("JAX_PLATFORMS", "cpu")
+    os.environ.setdefault("SDL_AUDIODRIVER", "dummy")
+    os.environ.setdefault("SDL_VIDEODRIVER", "dummy")
+    if silence_stdout:
+        # workers report through return values only; observers under test (rich progress bars,
+        # console back-ends) write to fd 1 from their own threads
+        devnull = os.open(os.devnull, os.O_WRONLY)
+        os.dup2(devnull, 1)
     faulthandler.enable()
     sys.setrecursionlimit(10000)
     import warnings
@@ -301,7 +308,7 @@ def run_check(prop: str, tier: str, spec: dict) -> int:
     }
     ctx = mp.get_context("spawn")
     harness_fail = False
-    with cf.ProcessPoolExecutor(max_workers=min(workers, max(1, len(jobs))), mp_context=ctx, initializer=_worker_init) as pool:
+    with cf.ProcessPoolExecutor(max_workers=min(workers, max(1, len(jobs))), mp_context=ctx, initializer=_worker_init, initargs=(True,)) as pool:
         futs = {pool.submit(run_job, j): j for j in jobs}
         try:
             for fut in cf.as_completed(futs, timeout=budget + 300):
